@@ -8,7 +8,7 @@ from . import calltree, c10
 PROP = "C16"
 LEVEL = "exploration"
 BUDGET = {"quick": 300, "thorough": 1700}
-NCASES = {"quick": 1200, "thorough": 20000}
+NCASES = {"quick": 2500, "thorough": 30000}
 RULE = ("generated call trees with context-argument overrides (incl. the empty dictionary) attached on drawn inner edges via "
         "with_context_args; the root is run repeatedly under a drawn sequence of root contexts (e.g. A, B, A, none, A); "
         "sub-calls memoized beforehand under the same or another context; a final run calls a drawn node with "
